@@ -276,15 +276,18 @@ ADDENDA = {
     "C02": " Also: constraint emission is memoryless (no cached state on wire objects / module tables decides emission); every "
            "value if_then_else returns for a secret condition is select(c,t,f) (polynomial or truth table); every fresh factor "
            "of a field product relation is range-bounded (the unbounded divmod quotient is a recorded known finding with a "
-           "forged-witness demonstration).",
+           "forged-witness demonstration); under a guard every constraint is enforced on its own (guard*dummy = 0 per constraint, "
+           "shared with C07).",
     "C03": " Also: a test that skips the range check on unpack is evaluated for every small modulus; declarations are enforced "
-           "at every call (memoryless rule).",
+           "at every call (memoryless rule); the enforced relation is stated over wires - no trace-time value of an operand "
+           "is folded into a gadget operand.",
     "C04": " Calls unknown to the value homomorphism are uninterpreted function symbols, so a closed-form value next to a "
            "differently built wire is a violation.  A construction that follows an accumulating loop is decided by induction "
            "over the loop (flag states, constant propagation per state, the claim as invariant).",
     "C05": " Also: check_zero/check_positive hint Python's truth value over the integers; `~` never meets a plain int; mixed "
            "integer / fixed-point comparisons happen at one scale; selection returns the chosen alternative; no operator writes "
-           ".value/.lc of an object that may be one of its operands (flow-sensitive may-alias analysis).",
+           ".value/.lc of an object that may be one of its operands (flow-sensitive may-alias analysis); no result or "
+           "decomposition is cached on an operand (memoryless rule).",
     "C07": " Also: emission is memoryless; a raise inside the guarded arm of add_constraint implies the unguarded arm's raise "
            "condition.",
     "C08": " Also: nothing computed from the guard outlives the region (memoryless rule); add_guard is the last fallible step "
@@ -296,11 +299,13 @@ ADDENDA = {
            "to_bytes, concatenated loops); a section list that depends on the data is a violation.",
     "C11": " Also: the zkinterface linear-combination algebra (shared with C13) and no table keyed by hash(value).",
     "C12": " Also: the whole equation line passes one context-consistency check; a block lists exactly the members it is given, "
-           "in order; no table keyed by hash(value).",
-    "C13": " The merge is executed on four key classes including 'present in both with coefficients cancelling to 0'.",
+           "in order; no table keyed by hash(value); every composite name built around a per-context counter contains the "
+           "context (globally unique wire and call names).",
+    "C13": " The merge is executed on four key classes including 'present in both with coefficients cancelling to 0'; a field "
+           "selected by name is resolved through the backend's table and compared with the curve's scalar-field order.",
     "C14": " Also: `/` is never applied to a representation (exact division is not a floor); the integer-secret class rejects "
            "or defers fixed-point operands (the strict-comparison defect named in the property was found by this rule and "
-           "repaired).",
+           "repaired); no negation is moved across a floor division (rounding stays towards minus infinity).",
     "C15": " Also: the per-position multiplexer if_then_else selects exactly (shared with C02); selector, read and write are "
            "stated over symbolic sequences (any spelling of the iteration); Array(x) stores a list of its own.",
     "C16": " Also: the evaluated skip predicate of the unpack range check (shared with C03); the checks dominating the bit "
@@ -309,7 +314,8 @@ ADDENDA = {
     "C19": " Stage rules are stated on the outcomes of a symbolic execution of the selection code over an abstract registry "
            "row (pairing of name and module on every outcome, no second assignment of backend, decision order, loud failure "
            "of a named backend, report of an unknown name before auto-detection); the environment is matched against a row only "
-           "after a complete scan of the table for pre-imported modules; star imports honour __all__.",
+           "after a complete scan of the table for pre-imported modules; a report counts only if Python's default warning / "
+           "logging configuration shows it; star imports honour __all__.",
     "C20": " Also: sponge construction (block added to the rate part, capacity element carried over, one permutation per "
            "block, state not kept in a class attribute) and pure rejection sampling of the subset-sum coefficients.",
 }
